@@ -16,22 +16,35 @@ fn main() {
     let mut report = Report::new(
         "C17",
         args.seed,
-        "random commit histories (1..8 commits of deltas/deletes/resets/empty deltas over 1..6 entities x 1..4 partitions x 2..10 \
+        "a deterministic boundary family (one history per branch/shape class of the update algorithm, identical for every seed) followed by random commit histories (1..8 commits of deltas/deletes/resets/empty deltas over 1..6 entities x 1..4 partitions x 2..10 \
          prefix-free sort keys built to share nibble prefixes); non-trivial = >= 2 commits, a delete or reset hit existing data and \
          the final database is non-empty; distinct by canonical text of the history",
     );
     let mut cw = CaseWriter::new("RV.Corr.C17_run RV.Model.C17_Jmt RV.Model.C18_Store", "check");
     let root = Rng::new(args.seed);
+    let family = boundary_family();
     for i in 0..args.cases {
         let mut rng = root.fork(i as u64);
         let pools = gen_pools(&mut rng);
+        let boundary = family.get(i);
         let long_keys = pools.entities[0].len() > 8;
-        let n = if rng.chance(1, 8) { rng.range(1, 2) } else if long_keys { rng.range(2, 3) } else { rng.range(2, 8) } as usize;
+        let n = if let Some(b) = boundary {
+            b.commits.len()
+        } else if rng.chance(1, 8) {
+            rng.range(1, 2) as usize
+        } else if long_keys {
+            rng.range(2, 3) as usize
+        } else {
+            rng.range(2, 8) as usize
+        };
         let mut db: BTreeMap<SubKey, Vec<u8>> = BTreeMap::new();
         let mut commits = vec![];
         let mut removed_existing = false;
-        for _ in 0..n {
-            let c = gen_commit(&mut rng, &pools, &db);
+        for j in 0..n {
+            let c = match boundary {
+                Some(b) => b.commits[j].clone(),
+                None => gen_commit(&mut rng, &pools, &db),
+            };
             let before = db.len();
             let mut db2 = db.clone();
             apply_to_map(&mut db2, &c);
@@ -46,8 +59,13 @@ fn main() {
             db = db2;
             commits.push(c);
         }
+        if let Some(b) = boundary {
+            report.count(&format!("boundary.{}", b.class));
+        } else {
+            report.count("random_histories");
+        }
         report.count_n("commits", n as u64);
-        if pools.variable_len {
+        if pools.variable_len && boundary.is_none() {
             report.count("cases_with_variable_length_sort_keys");
         }
         let canon = coq_list(commits.iter().map(coq_commit));
@@ -69,6 +87,19 @@ fn main() {
         if let Err(what) = oracle_c17(&mut rng, &commits, &out, &db) {
             report.oracle_failure(i, "", &what, input.clone());
         }
+        if let Some(b) = boundary {
+            // canonical shape of the substate tier of (E1, partition 6): one substate = a leaf root,
+            // none = no tier, several = an internal root with that many children
+            match reachable(&out.store, out.version.unwrap()) {
+                Ok(r) => {
+                    let got = shape_of(&r);
+                    if b.shape != Shape::Any && got != b.shape {
+                        report.oracle_failure(i, "", &format!("boundary case {}: substate tier root of (E1,6) is {:?}, canonical shape is {:?}", b.class, got, b.shape), input.clone());
+                    }
+                }
+                Err(e) => report.oracle_failure(i, "", &format!("boundary case {}: {}", b.class, e), input.clone()),
+            }
+        }
         if i < 2 {
             report.sample(json!({"commits": canon.chars().take(600).collect::<String>(), "roots": out.roots.iter().map(|h| h.to_string()).collect::<Vec<_>>()}));
         }
@@ -84,6 +115,14 @@ fn main() {
     report.floor("deletes", args.cases as u64 / 2);
     report.floor("resets", args.cases as u64 / 8);
     report.floor("final_db_nonempty", args.cases as u64 / 3);
+    if args.cases >= family.len() {
+        for b in &family {
+            report.floor(&format!("boundary.{}", b.class), 1);
+        }
+        if args.cases > family.len() {
+            report.floor("random_histories", 1);
+        }
+    }
     if !args.oracle_only {
         cw.write(&args.out, args.shards).unwrap();
     }
